@@ -1,5 +1,6 @@
 import re
 from copy import deepcopy
+from fractions import Fraction
 
 from .base import (
     BaseReader, BaseWriter, CaptionSet, CaptionList, Caption, CaptionNode,
@@ -67,7 +68,8 @@ class MicroDVDReader(BaseReader):
         return caption_set
 
     def _framestomicro(self, framenum, fps=25.0):
-        return int(framenum / fps * (10 ** 6))
+        # exact arithmetic: 201 / 25.0 * 10**6 is 8039999.999... in floats
+        return int(Fraction(framenum) * 10 ** 6 / Fraction(str(fps)))
 
 
 class MicroDVDWriter(BaseWriter):
